@@ -131,7 +131,7 @@ class Sim(object):
 
     TRACE_KEEP = 4000
 
-    def __init__(self, choices, step_cap=20000, vtime_cap=3600.0, strategy=None,
+    def __init__(self, choices, step_cap=20000, vtime_cap=INF, strategy=None,
                  p_stay=None, p_early=None, keep_trace=True, no_progress_cap=6000):
         self.choices = choices
         self.step_cap = step_cap
@@ -175,6 +175,9 @@ class Sim(object):
         if p_early is None:
             p_early = (0.0, 0.05, 0.15, 0.3)[d(4, kind="p_early")]
         self.p_early = p_early
+        self._storm = []
+        self._penalized = {}
+        self.early_budget = 400
         self._pct_changes = ()
         if self.strategy == "pct":
             k = d(4, kind="pct_k")
@@ -224,6 +227,12 @@ class Sim(object):
         if self.rootdir and path.startswith(self.rootdir):
             return path[len(self.rootdir):].lstrip("/")
         return path.rsplit("/", 1)[-1]
+
+    def request_storm(self, tasks, window=12):
+        """Buggify: fire the pending timeouts of `tasks` back to back (each runs
+        to its next primitive), then keep them off the CPU for `window` steps -
+        the 'everybody timed out just as the state changed' schedule."""
+        self._storm = [(t, window) for t in tasks]
 
     def stop_faults(self):
         """Declare that no further faults / early timeouts will be injected."""
@@ -371,9 +380,21 @@ class Sim(object):
 
         chosen = None
         fire = False
-        if timed and ne and self.p_early > 0.0:
+        while self._storm and chosen is None:
+            t, window = self._storm.pop(0)
+            if t.state == "blocked" and t.deadline is not None and not (t.pred is not None and t.pred()):
+                self.now = max(self.now, t.deadline)
+                self.fault("early_timeout")
+                self.fault("timeout_storm")
+                self._penalized[t.name] = self.step + window
+                chosen = t
+        if chosen is not None:
+            pass
+        elif timed and ne and self.p_early > 0.0 and self.early_budget > 0:
             fire = self.draw(2, p0=1.0 - self.p_early, kind="early") == 1
-        if not ne:
+        if chosen is not None:
+            pass
+        elif not ne:
             if not timed:
                 self._finish("deadlock")
                 if me.state != "done":
@@ -386,6 +407,7 @@ class Sim(object):
         elif fire:
             chosen = timed[self.draw(len(timed), kind="early_which")]
             self.now = max(self.now, chosen.deadline)
+            self.early_budget -= 1
             self.fault("early_timeout")
         else:
             chosen = self._pick(enabled, me)
@@ -409,6 +431,14 @@ class Sim(object):
                 raise TaskKilled()
 
     def _pick(self, enabled, me):
+        if self._penalized:
+            pen = self._penalized
+            for k in [k for k, v in pen.items() if v < self.step]:
+                del pen[k]
+            if pen:
+                rest = [t for t in enabled if t.name not in pen]
+                if rest:
+                    enabled = rest
         n = len(enabled)
         if n == 1:
             return enabled[0]
